@@ -4,6 +4,7 @@ import CM.Ops.Check
 import CM.Ops.Walk
 import CM.Ops.Render
 import CM.Ops.Emph
+import CM.Ops.Refs
 namespace CM.Ops
 
 def echoOp : Op
@@ -16,6 +17,6 @@ def treeOp : Op
     | none => bad
   | _ => bad
 
-def allOps : List (String × Op) := [("echo", echoOp), ("tree", treeOp)] ++ recognizeOps ++ checkOps ++ walkOps ++ renderOps ++ emphOps
+def allOps : List (String × Op) := [("echo", echoOp), ("tree", treeOp)] ++ recognizeOps ++ checkOps ++ walkOps ++ renderOps ++ emphOps ++ refsOps
 
 end CM.Ops
